@@ -89,10 +89,24 @@ def sequences(rng, pop):
             ['setreg', 'brightness', ['num', 60]],
             ['setreg', 'kelvin', ['num', 3000]]]
     hue = [10]
+    state = {'mode': 'logical', 'nums': [10, 80, 60]}
+    REGS3 = {'logical': ('hue', 'saturation', 'brightness'),
+             'raw': ('hue', 'saturation', 'brightness'),
+             'rgb': ('red', 'green', 'blue')}
 
     def colour():
-        hue[0] = (hue[0] + rng.choice([17, 40, 95])) % 360
-        return ['setreg', 'hue', ['num', hue[0]]]
+        if rng.random() < 0.2:
+            # another unit mode, the same three numbers: what a cell gets is
+            # what a plain `set` would send for them *in this mode*
+            state['mode'] = rng.choice([m for m in REGS3
+                                        if m != state['mode']])
+            prog.append(['units', state['mode']])
+            prog.extend(['setreg', r, ['num', v]] for r, v in zip(
+                REGS3[state['mode']], state['nums']))
+            return ['setreg', 'kelvin', ['num', 3000]]
+        hue[0] = (hue[0] + rng.choice([17, 40, 95])) % 100
+        state['nums'][0] = hue[0]
+        return ['setreg', REGS3[state['mode']][0], ['num', hue[0]]]
 
     def rng_spec(ext, allow_none=True):
         r = rng.random()
